@@ -428,7 +428,7 @@ def stepOp (acc : Acc) (op : World.Op) : Acc :=
       let implOk := o.result.startsWith "ok"
       -- C02: contents of the closure's outputs equal those of a from-scratch build
       let cleanOk :=
-        if !implOk || a.adopt || acc.adoptSeen then true else
+        if !implOk || a.adopt || acc.adoptSeen || World.usesRw before a || World.usesRw w' a then true else
         match World.cleanOutputs { before with fs := (o.fs.map (fun t => (t.1, (⟨t.2.1, t.2.2⟩ : FileInfo)))) } a with
         | none => true
         | some want => want.all (fun p =>
@@ -619,6 +619,9 @@ def handle (case impl : List String) : String :=
     want ++ mons [("rspfileExact", " ".intercalate impl == want)]
   | ["n2bin", "exit", "ok"] => "code=0"
   | ["n2bin", "exit", _] => "code=1"
+  | ["n2bin", "rsprewrite", _, h] =>
+    let want := "codes=[0,0] content=" ++ h ++ " rsp=" ++ h
+    want ++ mons [("rspfileExact", " ".intercalate impl == want)]
   | ["n2bin", "fds"] => "code=0 leaked=0" ++ mons [("noFdLeak", impl == ["code=0", "leaked=0"])]
   | "n2bin" :: "outdirs" :: outs =>
     let os := outs.filterMap bytesOfHex
